@@ -406,7 +406,8 @@ func (s *storage) fetch(br blob.Ref, offset, length int64) (rc io.ReadCloser, si
 	} else {
 		if offset > int64(meta.size) {
 			return nil, 0, blob.ErrOutOfRangeOffsetSubFetch
-		} else if offset+length > int64(meta.size) {
+		} else if length > int64(meta.size)-offset {
+			// (not offset+length > size: that sum can overflow)
 			length = int64(meta.size) - offset
 		}
 		rs = io.NewSectionReader(rac, meta.offset+offset, length)
